@@ -470,6 +470,12 @@ func enumerate(thorough bool) []Case {
 		}
 	}
 
+	// ---- duplex: one end writes (with interrupted flushes) and reads at the same
+	// time; every case stands for ALL interleavings of its two threads
+	for _, c := range enumDuplex(thorough) {
+		add(c)
+	}
+
 	// ---- nonce
 	nn := 1600
 	if thorough {
